@@ -427,6 +427,6 @@ pub fn run(tier: Tier) -> i32 {
 }
 
 pub fn replay(v: &serde_json::Value) -> i32 {
-    println!("REPLAY: C06 case {} — re-run ./check C06 (deterministic enumeration)", v["replay"]["sequences"]);
-    2
+    // the cases of this check are enumerated, not stored: re-run the deterministic enumeration for the signature
+    fp_harness::report::replay_by_rerun(v, &|tier| run(tier))
 }
